@@ -1,5 +1,6 @@
 """Generator of programs in the proven fragment: the while-language over global
-variables (expression statements, assignments, blocks, if, if/else, while with
+variables (expression statements, assignments, calls of the built-ins write,
+toa and aton as statements, blocks, if, if/else, while with
 pure conditions; literals, globals, all operators, array literals, indexing,
 slicing).  Every loop is bounded by a counter the loop body increments, so the
 programs terminate."""
@@ -74,7 +75,15 @@ class G:
         r = self.rng
         c = r.random()
         if d <= 0 or c < 0.3:
-            if r.random() < 0.5:
+            k = r.random()
+            if k < 0.22:
+                return "write(%s)" % self.any_expr(2)
+            if k < 0.28:
+                return "toa(%s)" % self.any_expr(2)
+            if k < 0.34:
+                return "aton(%s)" % r.choice(['"12"', '"-7"', '"1.5"', '"4e1"', '"x"', '""', "sa", "sb", "ga", '"9223372036854775808"',
+                                              "(%s + %s)" % (r.choice(['"1"', '"2"']), r.choice(['"0"', '".5"', '"e"']))])
+            if k < 0.67:
                 g = r.choice(NAMES)
                 if r.random() < 0.3:
                     return "%s = %s + 1" % (g, g)
